@@ -24,6 +24,9 @@ pub enum KeyAlt {
   RsaPool(u8),
   /// v1.public: the signer's modulus with another public exponent (3, 65539, 2^24 + 65537, 2^32 + 65537, 2^32 + 1, 5 ...)
   RsaExponent(u8),
+  /// v2.public / v4.public: the signer's public key plus one of the seven non-trivial 8-torsion points - a valid, different
+  /// 32-byte key that a verifier which multiplies keys by the cofactor takes for the signer's
+  TorsionSibling(u8),
   /// structured rearrangement of the key bytes: 0 swap two 8-byte groups, 1 reverse the 8-byte groups,
   /// 2 rotate by one byte, 3 reverse all bytes, 4 swap the halves
   Permute(u8, u8),
@@ -182,6 +185,15 @@ fn alt_public(p: Proto, seed: &[u8; 32], alt: &KeyAlt) -> Option<Vec<u8>> {
       k[0] = *b;
       k
     }
+    KeyAlt::TorsionSibling(i) => {
+      if !matches!(p, Proto::V2P | Proto::V4P) {
+        return None;
+      }
+      use curve25519_dalek::edwards::CompressedEdwardsY;
+      let a = CompressedEdwardsY::from_slice(&pk).ok()?.decompress()?;
+      let t = curve25519_dalek::constants::EIGHT_TORSION[1 + (*i as usize) % 7];
+      (a + t).compress().to_bytes().to_vec()
+    }
     KeyAlt::RsaExponent(i) => {
       if p != Proto::V1P {
         return None;
@@ -260,6 +272,7 @@ impl Sub for KeyBinding {
       KeyAlt::Degenerate => "degenerate",
       KeyAlt::RsaPool(_) => "rsa-pool",
       KeyAlt::RsaExponent(_) => "rsa-same-modulus-other-exponent",
+      KeyAlt::TorsionSibling(_) => "ed25519-key-plus-torsion-point",
       KeyAlt::Permute(..) => "permuted-bytes",
       KeyAlt::FlipTwo(..) => "two-bit-flips",
       KeyAlt::HexSpelling(..) => "hex-spelled-keys",
@@ -541,6 +554,7 @@ fn alt_strategy(p: Proto) -> BoxedStrategy<KeyAlt> {
     (if p.is_local() { 0 } else { 1 }, Just(KeyAlt::Degenerate).boxed()),
     (if p == Proto::V1P { 4 } else { 0 }, any::<u8>().prop_map(KeyAlt::RsaPool).boxed()),
     (if p == Proto::V1P { 4 } else { 0 }, any::<u8>().prop_map(KeyAlt::RsaExponent).boxed()),
+    (if matches!(p, Proto::V2P | Proto::V4P) { 4 } else { 0 }, (0u8..7).prop_map(KeyAlt::TorsionSibling).boxed()),
     (3, (0u8..5, any::<u8>()).prop_map(|(k, w)| KeyAlt::Permute(k, w)).boxed()),
     (3, (any::<u16>(), 0u8..5).prop_map(|(b, d)| KeyAlt::FlipTwo(b, d)).boxed()),
     (if p.is_local() || ed { 2 } else { 0 }, (0u8..3, any::<u8>()).prop_map(|(k, n)| KeyAlt::WrongLength(k, n)).boxed()),
@@ -595,6 +609,29 @@ pub fn run(ctx: &Ctx) -> EvidenceMeta {
           }
           for alt in [KeyAlt::AllZero, KeyAlt::AllOne, KeyAlt::Negate, KeyAlt::Degenerate] {
             cases.push(KeyCase { tok: spec.clone(), alt });
+          }
+          for i in 0..7u8 {
+            cases.push(KeyCase { tok: spec.clone(), alt: KeyAlt::TorsionSibling(i) });
+          }
+          // the same neighbourhood again around tokens that seal one or two bytes, nothing, or "{}" (what a wrong key turns
+          // so short a message into is text - or even JSON - by chance: only authentication keeps it out)
+          if spec.layer != Layer::Prelude && matches!(spec.proto, Proto::V4L | Proto::V2L | Proto::V3L | Proto::V1L) {
+            for (mi, m) in ["7", "ok", "", "{}", "a", "1e"].into_iter().enumerate() {
+              let mut tiny = spec.clone();
+              tiny.msg = m.to_string();
+              tiny.footer = None;
+              tiny.assertion = None;
+              tiny.core_payload = if spec.layer == Layer::Core { None } else { Some(if m == "{}" || m == "7" { m.to_string() } else { format!("{{\"data\":\"{m}\"}}") }) };
+              if spec.layer != Layer::Core && !(m == "{}" || mi == 1) {
+                continue;
+              }
+              for i in (0..bits).step_by(if ctx.quick() { 3 } else { 1 }) {
+                cases.push(KeyCase { tok: tiny.clone(), alt: KeyAlt::FlipBit(i) });
+              }
+              for sd in 0..if ctx.quick() { 120u16 } else { 2000 } {
+                cases.push(KeyCase { tok: tiny.clone(), alt: KeyAlt::OtherSeed((0..32).map(|j| (j as u8).wrapping_mul(41).wrapping_add(sd as u8).wrapping_add((sd >> 8) as u8 * 97)).collect()) });
+              }
+            }
           }
           if matches!(spec.proto, Proto::V3P | Proto::V2P | Proto::V4P) {
             // every value of the first key byte (for P-384 that is every SEC1 tag)
